@@ -1646,7 +1646,11 @@ func glTranslate(u glUnit) {
 		if r := recover(); r != nil {
 			ref, ok := r.(glRefusal)
 			if !ok {
-				panic(r)
+				er, ok2 := r.(extractRefusal)
+				if !ok2 {
+					panic(r)
+				}
+				ref = glRefusal{er.msg}
 			}
 			stub := fmt.Sprintf("-- GENERATED by /verif/tools/extract (golean.go). The translator REFUSED this unit as the source is now:\n--   %s\nimport Glb.Go.Prelude\nnamespace %s\ndef translatorRefused : String := %q\nend %s\n", ref.msg, u.NS, ref.msg, u.NS)
 			writeIfChanged(u.Module, stub)
